@@ -25,6 +25,8 @@ NEGATIVE = set()  # keys of gauge children that were below zero at some point
 KINDS = {}        # name -> "counter" | "gauge"
 LABELNAMES = {}   # name -> tuple of label names
 _EPOCH = [0]
+HOOK = [None]     # optional callable run before every update of a gauge: the C20 scenario installs the engine's
+                  # scheduling point here, so that interleavings around gauge updates are explored
 
 
 def reset():
@@ -59,6 +61,8 @@ class _Child(object):
     def _add(self, amount):
         if self._epoch != _EPOCH[0]:
             return  # stale child of an earlier execution
+        if self._gauge and HOOK[0] is not None:
+            HOOK[0]()
         v = REGISTRY.get(self._key, 0) + amount
         REGISTRY[self._key] = v
         if self._gauge and v < 0:
